@@ -119,7 +119,7 @@ def _path_open(interp, self, args, kwargs):
         if mode.startswith('x') and self._pv_ghost.get('exists', True) and not self._pv_ghost.get('unused'):
             raise Unsupported('exclusive creation of a path that is not known to be unused')
         f = new_opaque(interp, TextFileI, self._pv_uid + '.open(%s)' % mode)
-        f._pv_ghost.update(path=self, mode=mode, pos=z3.IntVal(0), closed=False, cookies={})
+        f._pv_ghost.update(path=self, mode=mode, pos=z3.IntVal(0), closed=False, cookies={}, dirty=False)
         set_stored(interp, self, _sv(''))
         self._pv_ghost['exists'] = True
         self._pv_ghost['unused'] = False
@@ -251,6 +251,7 @@ def append_to(interp, out, s):
     g = out._pv_ghost
     if 'path' in g:
         p = g['path']
+        g['dirty'] = True          # (see child_writes) written through the object and not known to be flushed
         set_stored(interp, p, _write_at_pos(interp, out, stored_of(interp, p), s))
     else:
         g['written'] = z3.simplify(z3.Concat(written_of(interp, out), _t(s)))
@@ -299,6 +300,7 @@ def _w_writelines(interp, self, args, kwargs):
 def _f_seek(interp, self, args, kwargs):
     g = self._pv_ghost
     st = interp.st
+    g['dirty'] = False           # TextIOWrapper.seek flushes
     off = args[0]
     whence = args[1] if len(args) > 1 else 0
     if whence != 0:
@@ -382,11 +384,98 @@ class TextFileI(TextOutI):
         'seek': Method(model=_f_seek),
         'read': Method(model=_f_read),
         'tell': Method(model=_f_tell),
-        'flush': Method(),
+        'flush': Method(model=lambda interp, self, args, kwargs: self._pv_ghost.__setitem__('dirty', False)),
         'fileno': Method(model=_f_fileno),
         'close': Method(model=_f_close),
         '__enter__': Method(model=_f_enter),
         '__exit__': Method(model=_f_close),
+    }
+
+
+# ------------------------------------------------------------------------------ a child process is given the open file
+# A child process that is given an open file as stdout / stderr writes through the file DESCRIPTOR: its text goes
+# to the file at the current offset of the open file description, i.e. after what has been FLUSHED.  What Python has
+# written to the file OBJECT and not flushed yet reaches the file later (at the next flush / close), i.e. AFTER the
+# child's text (fix 2ed9b4b in /repo: `output.flush()` before the process is started).
+# Ghost of a buffered output (`BufferedOutI`): `written` -- what the file holds once everything has been flushed, in
+# that order; `pending` -- the suffix of `written` that is still in the buffer of the object.
+
+def pending_of(interp, out):
+    g = out._pv_ghost
+    if 'pending' not in g:
+        w = written_of(interp, out)
+        p = to_z3(interp.reg.opaque_getattr(interp, out, 'pending0'))
+        interp.st.assume(z3.SuffixOf(p, w))
+        g['pending'] = p
+    return _t(g['pending'])
+
+
+def _buffered(interp, out, s):
+    """Python writes s to a buffered output: it is appended; any part of the buffer may be flushed on the way"""
+    st = interp.st
+    old_p = pending_of(interp, out)
+    g = out._pv_ghost
+    g['written'] = z3.simplify(z3.Concat(written_of(interp, out), _t(s)))
+    p = st.fresh_str(out._pv_uid + '.pending')
+    q = st.fresh_str(out._pv_uid + '.auto-flushed')
+    st.assume(z3.Concat(old_p, _t(s)) == z3.Concat(q, p))
+    g['pending'] = p
+
+
+def _b_write(interp, self, args, kwargs):
+    s = _as_text(interp, args[0])
+    _buffered(interp, self, s)
+    return wrap(z3.Length(to_z3(s)))
+
+
+def _b_writelines(interp, self, args, kwargs):
+    _buffered(interp, self, lines_text(interp, args[0]))
+    return None
+
+
+def _b_flush(interp, self, args, kwargs):
+    pending_of(interp, self)
+    self._pv_ghost['pending'] = _sv('')
+    return None
+
+
+def child_writes(interp, out, s):
+    """A child process that was given the open file `out` writes the text s through the descriptor."""
+    st = interp.st
+    g = out._pv_ghost
+    if 'path' in g:
+        # a file opened through PathI.open: writes of the object are modelled as stored at once; sound only if
+        # nothing has been written through the object since it was opened / flushed -- else the result is unknown
+        p = g['path']
+        if g.get('dirty', True):      # (a file object of unknown history may hold unflushed text)
+            set_stored(interp, p, st.fresh_str(out._pv_uid + '.unknown-order'))
+        else:
+            set_stored(interp, p, _write_at_pos(interp, out, stored_of(interp, p), s))
+        return
+    if not isinstance(out._pv_iface, type) or not issubclass(out._pv_iface, BufferedOutI):
+        raise Unsupported('a child process writes to an output without a buffer model (%s)' % out._pv_iface.__name__)
+    pend = pending_of(interp, out)
+    w = written_of(interp, out)
+    head = st.fresh_str(out._pv_uid + '.flushed')
+    st.assume(w == z3.Concat(head, pend))
+    g['written'] = z3.simplify(z3.Concat(head, _t(s), pend))
+
+
+def nothing_buffered(interp, f):
+    """(ghost) everything written through the file object has reached the file"""
+    g = f._pv_ghost
+    if 'path' in g:
+        return not g.get('dirty', True)
+    return interp.st.must_hold(pending_of(interp, f) == _sv(''))
+
+
+class BufferedOutI(TextOutI):
+    """`output: TextIO` that a child process may be given: ghost `written` and its unflushed suffix `pending`"""
+    attrs = {'pending0': Str}
+    methods = {
+        'write': Method(model=_b_write),
+        'writelines': Method(model=_b_writelines),
+        'flush': Method(model=_b_flush),
     }
 
 
